@@ -90,9 +90,13 @@ Definition add_one (s : stats) (r : presult) : stats :=
                 (st_errors s + (if String.eqb f "errors" then 1 else 0)) in
     s'.
 
+(* Stats::add (the merge of a worker's statistics), driven by the regenerated list of `self.f += other.f` lines *)
+Definition merged (f : string) : bool := existsb (fun p => String.eqb (fst p) f && String.eqb (snd p) f) stats_add_pairs.
 Definition stats_add (a b : stats) : stats :=
-  mk_stats (st_dirs a + st_dirs b) (st_files a + st_files b) (st_processed a + st_processed b) (st_replaced a + st_replaced b)
-           (st_rewritten a + st_rewritten b) (st_mis a + st_mis b) (st_errors a + st_errors b).
+  let m (f : string) (v : N) : N := if merged f then v else 0 in
+  mk_stats (st_dirs a + m "directories" (st_dirs b)) (st_files a + m "files" (st_files b))
+           (st_processed a + m "inodes_processed" (st_processed b)) (st_replaced a + m "inodes_replaced" (st_replaced b))
+           (st_rewritten a + m "inodes_rewritten" (st_rewritten b)) (st_mis a + m "misunderstood" (st_mis b)) (st_errors a + m "errors" (st_errors b)).
 
 (* main(): does the run fail? *)
 Definition run_fails (check brp : bool) (s : stats) : bool :=
